@@ -915,6 +915,7 @@ class Verifier(Exec):
         self.alloc0_call = alloc_before
         for cl in spec.ensures:
             ev = SpecEval(self, st, env2, pre_state, 'post of %s' % callee)
+            ev.no_expand = spec.trusted
             ev.fresh_base = (lambda ab: (lambda: ab))(alloc_before)
             ev.env_old = (lambda e_: (lambda: e_))(env)
             t = ev.boolean(cl.expr)
